@@ -14,6 +14,17 @@ From Coq Require Import List Arith Bool Lia.
 Import ListNotations.
 
 (* ------------------------------------------------------------------------------------------ *)
+(* Two places where the Rust deviates from ECMA-262 have a proposed repair (fixes.d/C17-*.patch).  The model carries
+   both behaviours; the check determines which one the working tree has (probe cases) and runs the model with the
+   matching configuration.  `cfg0` is the tree the model was written against. *)
+Record cfg := mkCfg {
+  cf_reject_m : bool;      (* AsyncModuleExecutionFulfilled 12.c.ii.1 rejects m (spec) instead of `module` *)
+  cf_own_pending : bool;   (* ModuleStatus::Evaluating carries the module's own pending_async_dependencies *)
+  cf_gather_keeps : bool   (* GatherAvailableAncestors reads [[AsyncParentModules]] without emptying it (spec) *)
+}.
+Definition cfg0 := mkCfg false false false.
+
+(* ------------------------------------------------------------------------------------------ *)
 (* graph description *)
 
 Record modinfo := mkMod {
@@ -69,9 +80,10 @@ Record mstate := mkMs {
   ms_status   : status;
   ms_loaded   : list nat;   (* [[LoadedModules]]: specifiers already resolved for this referrer *)
   ms_aparents : list nat;   (* [[AsyncParentModules]] *)
-  ms_phase    : nat         (* exported `v`: 0 body not started, 1 started (var initialised), 2 after v=1, 3 after v=2 *)
+  ms_phase    : nat;        (* exported `v`: 0 body not started, 1 started (var initialised), 2 after v=1, 3 after v=2 *)
+  ms_pend     : nat         (* Evaluating.pending_async_dependencies (only with cf_own_pending) *)
 }.
-Definition ms0 := mkMs Unlinked [] [] 0.
+Definition ms0 := mkMs Unlinked [] [] 0 0.
 
 Inductive event := EvStart (m : nat) (reads : list nat) | EvEnd (m : nat) (reads : list nat).
 Inductive pstate := PPending | PFulfilled | PRejected (e : error).
@@ -98,15 +110,17 @@ Definition setm (s : gstate) (m : nat) (v : mstate) : gstate :=
 
 Definition status_of (s : gstate) (m : nat) : status := ms_status (getm s m).
 Definition set_status (s : gstate) (m : nat) (st : status) : gstate :=
-  let x := getm s m in setm s m (mkMs st (ms_loaded x) (ms_aparents x) (ms_phase x)).
+  let x := getm s m in setm s m (mkMs st (ms_loaded x) (ms_aparents x) (ms_phase x) (ms_pend x)).
 Definition set_phase (s : gstate) (m : nat) (p : nat) : gstate :=
-  let x := getm s m in setm s m (mkMs (ms_status x) (ms_loaded x) (ms_aparents x) p).
+  let x := getm s m in setm s m (mkMs (ms_status x) (ms_loaded x) (ms_aparents x) p (ms_pend x)).
+Definition set_pend (s : gstate) (m : nat) (p : nat) : gstate :=
+  let x := getm s m in setm s m (mkMs (ms_status x) (ms_loaded x) (ms_aparents x) (ms_phase x) p).
 Definition set_aparents (s : gstate) (m : nat) (l : list nat) : gstate :=
-  let x := getm s m in setm s m (mkMs (ms_status x) (ms_loaded x) l (ms_phase x)).
+  let x := getm s m in setm s m (mkMs (ms_status x) (ms_loaded x) l (ms_phase x) (ms_pend x)).
 Definition add_loaded (s : gstate) (m r : nat) : gstate :=
   let x := getm s m in
   if mem r (ms_loaded x) then s
-  else setm s m (mkMs (ms_status x) (ms_loaded x ++ [r]) (ms_aparents x) (ms_phase x)).
+  else setm s m (mkMs (ms_status x) (ms_loaded x ++ [r]) (ms_aparents x) (ms_phase x) (ms_pend x)).
 Definition push_aparent (s : gstate) (r m : nat) : gstate :=
   set_aparents s r (ms_aparents (getm s r) ++ [m]).
 
@@ -231,10 +245,10 @@ Fixpoint eval_requests (rec : rec_t) (m : nat) (reqs : list nat) (s : gstate) (s
   end.
 
 (* step 16: pop the strongly connected component rooted at m.
-   DEVIATION: a popped member that becomes evaluating-async receives `pend`, the pending-dependency count
-   of the *root* m (a local variable of m's call), not its own count (the spec keeps
+   DEVIATION (cf_own_pending = false): a popped member that becomes evaluating-async receives `pend`, the
+   pending-dependency count of the *root* m (a local variable of m's call), not its own count (the spec keeps
    [[PendingAsyncDependencies]] per module). *)
-Fixpoint pop_scc (m pend : nat) (s : gstate) (stack : list nat) : gstate * list nat * option panic :=
+Fixpoint pop_scc (cf : cfg) (m pend : nat) (s : gstate) (stack : list nat) : gstate * list nat * option panic :=
   match stack with
   | [] => (s, [], Some (POther 30))       (* js_expect("should at least have `self` in the stack") *)
   | r :: rest =>
@@ -242,15 +256,16 @@ Fixpoint pop_scc (m pend : nat) (s : gstate) (stack : list nat) : gstate * list 
       | Evaluating tlc croot _ aorder =>
           let cr := if r =? m then croot else m in
           let s := match aorder with
-                   | Some o => set_status s r (EvaluatingAsync tlc cr o pend)
+                   | Some o => set_status s r (EvaluatingAsync tlc cr o
+                                                 (if cf_own_pending cf then ms_pend (getm s r) else pend))
                    | None => set_status s r (Evaluated tlc cr None)
                    end in
-          if r =? m then (s, rest, None) else pop_scc m pend s rest
+          if r =? m then (s, rest, None) else pop_scc cf m pend s rest
       | _ => (s, rest, Some (POther 31))
       end
   end.
 
-Fixpoint inner_evaluate (fuel : nat) (g : graph) (cap : option nat)
+Fixpoint inner_evaluate (cf : cfg) (fuel : nat) (g : graph) (cap : option nat)
          (s : gstate) (stack : list nat) (index m : nat) : gstate * list nat * res nat :=
   match fuel with
   | 0 => (s, stack, RFuel)
@@ -263,9 +278,10 @@ Fixpoint inner_evaluate (fuel : nat) (g : graph) (cap : option nat)
           let s := set_status s m (Evaluating cap m index None) in
           let module_index := index in
           let stack := m :: stack in
-          match eval_requests (fun s st i r => inner_evaluate f g None s st i r) m (requests g m)
+          match eval_requests (fun s st i r => inner_evaluate cf f g None s st i r) m (requests g m)
                               s stack (S index) 0 with
           | (s, stack, ROk (index, pend)) =>
+              let s := if cf_own_pending cf then set_pend s m pend else s in
               let '(s, r) :=
                 if (0 <? pend) || has_tla g m then
                   match status_of s m with
@@ -282,7 +298,7 @@ Fixpoint inner_evaluate (fuel : nat) (g : graph) (cap : option nat)
                   | Evaluating _ _ anc _ =>
                       if module_index <? anc then (s, stack, RPanic (POther 42))   (* assert!(ancestor_index <= module_index) *)
                       else if anc =? module_index then
-                        match pop_scc m pend s stack with
+                        match pop_scc cf m pend s stack with
                         | (s, stack, None) => (s, stack, ROk index)
                         | (s, stack, Some p) => (s, stack, RPanic p)
                         end
@@ -316,10 +332,10 @@ Fixpoint mark_errored (s : gstate) (stack : list nat) (e : error) : gstate * opt
       end
   end.
 
-Definition evaluate (fuel : nat) (g : graph) (s : gstate) (m : nat) : gstate * res nat :=
+Definition evaluate (cf : cfg) (fuel : nat) (g : graph) (s : gstate) (m : nat) : gstate * res nat :=
   let go (s : gstate) (md : nat) :=
     let '(s, c) := new_promise s in
-    match inner_evaluate fuel g (Some c) s [] 0 md with
+    match inner_evaluate cf fuel g (Some c) s [] 0 md with
     | (s, stack, ROk _) =>
         match status_of s md with
         | EvaluatingAsync _ _ _ _ =>
@@ -359,14 +375,16 @@ Definition cycle_root_of (st : status) : option nat :=
 Definition evaluation_error (st : status) : option error :=
   match st with Evaluated _ _ e => e | _ => None end.
 
-(* GatherAvailableAncestors; the parent list is taken (std::mem::take), execList is a set *)
-Fixpoint gather (fuel : nat) (g : graph) (s : gstate) (m : nat) (exec : list nat)
+(* GatherAvailableAncestors; execList is a set.
+   DEVIATION (cf_gather_keeps = false): the parent list is taken (std::mem::take), so a synchronous parent that is then
+   executed from AsyncModuleExecutionFulfilled and throws has no [[AsyncParentModules]] left to reject. *)
+Fixpoint gather (cf : cfg) (fuel : nat) (g : graph) (s : gstate) (m : nat) (exec : list nat)
   : gstate * list nat * option panic :=
   match fuel with
   | 0 => (s, exec, Some (POther 99))
   | S f =>
       let parents := ms_aparents (getm s m) in
-      let s := set_aparents s m [] in
+      let s := if cf_gather_keeps cf then s else set_aparents s m [] in
       (fix loop (ps : list nat) (s : gstate) (exec : list nat) : gstate * list nat * option panic :=
          match ps with
          | [] => (s, exec, None)
@@ -390,7 +408,7 @@ Fixpoint gather (fuel : nat) (g : graph) (s : gstate) (m : nat) (exec : list nat
                                    let exec := exec ++ [p] in
                                    if has_tla g p then loop rest s exec
                                    else
-                                     match gather f g s p exec with
+                                     match gather cf f g s p exec with
                                      | (s, exec, None) => loop rest s exec
                                      | (s, exec, Some pn) => (s, exec, Some pn)
                                      end
@@ -455,11 +473,11 @@ Fixpoint sort_exec (s : gstate) (l : list nat) (acc : list (nat * nat)) : option
   end.
 
 (* AsyncModuleExecutionFulfilled
-   DEVIATION (step 12.c.ii.1): when a synchronous ancestor m' of the list throws, the Rust calls
+   DEVIATION (step 12.c.ii.1, cf_reject_m = false): when a synchronous ancestor m' of the list throws, the Rust calls
    AsyncModuleExecutionRejected(module, error) with the *fulfilled* module instead of m'; that module is already
    evaluated without error, so the debug assertion `error.is_some()` fires (debug build: panic; release build: m' stays
    evaluating-async for ever). *)
-Definition async_fulfilled (fuel : nat) (g : graph) (s : gstate) (m : nat) : gstate * option panic :=
+Definition async_fulfilled (cf : cfg) (fuel : nat) (g : graph) (s : gstate) (m : nat) : gstate * option panic :=
   match status_of s m with
   | Evaluated _ _ (Some _) => (s, None)
   | Evaluated _ _ None => (s, Some PAssertErrorIsSome)
@@ -472,7 +490,7 @@ Definition async_fulfilled (fuel : nat) (g : graph) (s : gstate) (m : nat) : gst
       match r with
       | (s, Some p) => (s, Some p)
       | (s, None) =>
-          match gather fuel g s m [] with
+          match gather cf fuel g s m [] with
           | (s, _, Some p) => (s, Some p)
           | (s, exec, None) =>
               match sort_exec s exec [] with
@@ -495,7 +513,7 @@ Definition async_fulfilled (fuel : nat) (g : graph) (s : gstate) (m : nat) : gst
                              else
                                match execute_sync g s x with
                                | (s, RErr e) =>
-                                   match async_rejected fuel g s m e with     (* `module`, not `m` *)
+                                   match async_rejected fuel g s (if cf_reject_m cf then x else m) e with
                                    | (s, None) => loop rest s
                                    | (s, Some p) => (s, Some p)
                                    end
@@ -521,24 +539,24 @@ Definition async_fulfilled (fuel : nat) (g : graph) (s : gstate) (m : nat) : gst
   | _ => (s, Some (POther 75))
   end.
 
-Definition run_job (fuel : nat) (g : graph) (s : gstate) (j : job) : gstate * option panic :=
+Definition run_job (cf : cfg) (fuel : nat) (g : graph) (s : gstate) (j : job) : gstate * option panic :=
   match j with
   | JResume m 0 => (body_finish g s m, None)
   | JResume m (S k) => (enqueue s (JResume m k), None)
-  | JFulfilled m => async_fulfilled fuel g s m
+  | JFulfilled m => async_fulfilled cf fuel g s m
   | JRejected m e => async_rejected fuel g s m e
   end.
 
 (* Context::run_jobs: FIFO until the queue is empty *)
-Fixpoint run_jobs (fuel : nat) (g : graph) (s : gstate) : gstate * res unit :=
+Fixpoint run_jobs (cf : cfg) (fuel : nat) (g : graph) (s : gstate) : gstate * res unit :=
   match fuel with
   | 0 => (s, RFuel)
   | S f =>
       match gs_jobs s with
       | [] => (s, ROk tt)
       | j :: rest =>
-          match run_job fuel g (set_jobs s rest) j with
-          | (s, None) => run_jobs f g s
+          match run_job cf fuel g (set_jobs s rest) j with
+          | (s, None) => run_jobs cf f g s
           | (s, Some (POther 97)) | (s, Some (POther 98)) | (s, Some (POther 99)) => (s, RFuel)
           | (s, Some p) => (s, RPanic p)
           end
@@ -796,7 +814,7 @@ Definition load (fuel : nat) (g : graph) (s : gstate) (m : nat) : gstate * res (
 
 Inductive outcome := OFulfilled | OPending | ORejected (e : error) | OPanic (p : panic) | OFuel.
 
-Definition run_op (fuel : nat) (g : graph) (s : gstate) (m : nat) : gstate * outcome :=
+Definition run_op (cf : cfg) (fuel : nat) (g : graph) (s : gstate) (m : nat) : gstate * outcome :=
   match load fuel g s m with
   | (s, RFuel) => (s, OFuel)
   | (s, RPanic p) => (s, OPanic p)
@@ -809,12 +827,12 @@ Definition run_op (fuel : nat) (g : graph) (s : gstate) (m : nat) : gstate * out
       | (s, RPanic p) => (s, OPanic p)
       | (s, RErr e) => (s, ORejected e)
       | (s, ROk _) =>
-          match evaluate fuel g s m with
+          match evaluate cf fuel g s m with
           | (s, RFuel) => (s, OFuel)
           | (s, RPanic p) => (s, OPanic p)
           | (s, RErr e) => (s, ORejected e)
           | (s, ROk c) =>
-              match run_jobs fuel g s with
+              match run_jobs cf fuel g s with
               | (s, RFuel) => (s, OFuel)
               | (s, RPanic p) => (s, OPanic p)
               | (s, RErr e) => (s, ORejected e)
@@ -830,14 +848,14 @@ Definition run_op (fuel : nat) (g : graph) (s : gstate) (m : nat) : gstate * out
   end.
 
 (* a case: the ops in order; after a panic the case stops (the harness does the same) *)
-Fixpoint run_ops (fuel : nat) (g : graph) (s : gstate) (ops : list nat) : list (gstate * outcome) :=
+Fixpoint run_ops (cf : cfg) (fuel : nat) (g : graph) (s : gstate) (ops : list nat) : list (gstate * outcome) :=
   match ops with
   | [] => []
   | m :: rest =>
-      let '(s', o) := run_op fuel g s m in
+      let '(s', o) := run_op cf fuel g s m in
       (s', o) :: match o with
                  | OPanic _ | OFuel => []
-                 | _ => run_ops fuel g s' rest
+                 | _ => run_ops cf fuel g s' rest
                  end
   end.
 
